@@ -1,8 +1,14 @@
 """Canonical state encoding (DESIGN.md section 1.4).
 
-canon(obj) is a SHA-1 over a recursive, order-preserving encoding.  Nothing is
-dropped, so equal hashes mean equal futures; the abstraction can only be too
-fine.  NaN payloads compare bit-wise (arrays are encoded by their bytes).
+canon(obj) is a SHA-1 over a recursive, order-preserving encoding of the
+OBSERVABLE state of an object (for a fit result: source, av, sc, chi2,
+model_id, model_name, model_fluxes, meta) and is what oracles compare.
+state_hash(obj) additionally covers every other instance attribute (caches,
+counters a changed implementation might add): it identifies STATES of the
+exploration, so the abstraction can only be too fine, but it is never used
+as an oracle -- an implementation is free to keep private state as long as
+nothing observable depends on it.  NaN payloads compare bit-wise (arrays are
+encoded by their bytes).
 """
 import hashlib
 import numpy as np
@@ -70,7 +76,7 @@ def _enc(obj, out):
                   obj.model_fluxes, getattr(obj, 'meta', None)], out)
             known = ('source', 'av', 'sc', 'chi2', 'model_id', 'model_name', 'model_fluxes', 'meta')
             extra = {k: v for k, v in vars(obj).items() if k not in known}
-            if extra:        # hidden state a changed implementation might add
+            if extra and _HIDDEN[0]:        # hidden state a changed implementation might add
                 out.append(b'+')
                 _enc({k: (v if _encodable(v) else repr(v)) for k, v in extra.items()}, out)
         elif name == 'FitInfoMeta':
@@ -95,6 +101,18 @@ def _enc(obj, out):
             _enc(np.asarray(obj), out)
         else:
             raise TypeError("canon: don't know how to encode %r" % type(obj))
+
+
+_HIDDEN = [False]
+
+
+def state_hash(obj):
+    """canon() plus private attributes of fit results: identifies exploration states, never an oracle."""
+    _HIDDEN[0] = True
+    try:
+        return canon(obj)
+    finally:
+        _HIDDEN[0] = False
 
 
 def _encodable(v):
